@@ -9,8 +9,9 @@ CONSTANTS
   Mode = "cover"
   MaxLen = 0
   Chains = 0
+  Replays <- NoReplays
 INIT Init
 NEXT Next
 VIEW View
 CONSTRAINT EmitStep
-INVARIANTS TypeOK OnlyAuthentic NoVerifierRejects RealNotBypassed RejectKeepsState Complete Monotone CacheIsLastAccepted EmitFan
+INVARIANTS TypeOK OnlyAuthentic NoVerifierRejects RealNotBypassed RejectKeepsState Complete Monotone CacheIsLastAccepted KnownIsPresented EmitFan
